@@ -4,7 +4,7 @@ package main
 
 func init() {
 	props["C01"] = &propSpec{
-		Rules:      []string{"C01-a", "C01-b", "C01-e", "C01-f", "C19-f", "C19-g"},
+		Rules:      []string{"C01-a", "C01-b", "C01-e", "C01-f", "C19-f", "C19-g", "C01-g"},
 		Decides:    "Decides, on every path of every production function, structural necessary conditions of 'no row is dropped, truncated or altered': no error from the sorter / ingest / object store / on-disk index is dropped. It does not decide equality of stored and input rows (value-dependent); level 'other' because it is exhaustive over code paths but establishes a necessary condition only. Also decided: the workers' blocks are sorted by offset on every path before the table's block list is built, and the ingest CSV reader is configured only with loss-free options.",
 		NotDecided: "equality of the stored row set with the input row set, key order, de-duplication correctness, export fidelity (value-dependent).",
 	}
@@ -49,7 +49,7 @@ func init() {
 		NotDecided: "sequence semantics of the store against a map model; the file store (pkg/ref/fs is imported only by tests and is outside the production call graph).",
 	}
 	props["C16"] = &propSpec{
-		Rules:      []string{"C16-a", "C16-b", "C16-c", "C16-d", "C16-e", "C16-f", "C16-g"},
+		Rules:      []string{"C16-a", "C16-b", "C16-c", "C16-d", "C16-e", "C16-f", "C16-g", "C16-h"},
 		Decides:    "Decides that, for goroutines started in several instances on shared operands (go in a loop, or in a function called from a loop), every field/variable/map write reached from the shared operands is under a mutex reached from the same operands, inside sync.Once.Do, atomic or a channel operation; that SingleTracker's concurrently read counters are only accessed atomically; that the ingest pool's error channel is sized by the same value as its worker loop and a worker sends at most once; that no error is dropped in pipeline goroutines. Does not decide termination, deadlock freedom, equality with the sequential result or absence of every race. Also decided: workers read lock-guarded shared fields under the lock; no error send after closing the data channel; data channel fields are closed by their sender.",
 		NotDecided: "termination, deadlock freedom, equality with the sequential result, absence of every race (no may-happen-in-parallel analysis for main-vs-goroutine pairs).",
 	}
